@@ -728,6 +728,8 @@ class Interp(Engine):
             raise ProgExc(e, None, cause)
         if isinstance(e, ExcObj):
             raise ProgExc(e.cls, e.args, cause)
+        if isinstance(e, Obj) and isinstance(e.cls, type) and issubclass(e.cls, BaseException):
+            raise ProgExc(e.cls, e, cause)  # instance of an exception class defined in the repository
         if isinstance(e, ProgExc):
             raise e
         raise ProgExc(TypeError, "exceptions must derive from BaseException")
